@@ -10,16 +10,19 @@ import (
 // Registry maps property ids to their checks.
 var Registry = map[string]func(*core.Ctx){
 	"C01": C01,
+	"C03": C03,
 	"C04": C04,
 	"C05": C05,
 	"C06": C06,
 	"C08": C08,
 	"C09": C09,
 	"C10": C10,
+	"C11": C11,
 	"C12": C12,
 	"C13": C13,
 	"C15": C15,
 	"C16": C16,
+	"C17": C17,
 	"C18": C18,
 	"C19": C19,
 }
